@@ -700,7 +700,7 @@ macro_rules! bernmix_entropy {
                 let ln_f_true = self.ln_f(&true);
                 let ln_f_false = self.ln_f(&false);
 
-                ln_f_true
+                -ln_f_true
                     .exp()
                     .mul_add(ln_f_true, ln_f_false.exp() * ln_f_false)
             }
